@@ -37,7 +37,7 @@ def cases(tier, sd):
         l0, m0 = modes[(r + sd) % len(modes)]
         out.append(dict(kind='psi4', l0=l0, m0=m0, seed=100 * sd + r,
                         amp=[1.0, 1e-9, 1e6, 1e-12][(r + sd) % 4],
-                        method=['linear', 'cubic'][r % 2] if tier == "thorough" else 'linear',
+                        method=['linear', 'cubic'][r % 2] if tier == "thorough" else ['linear', 'linear', 'linear', 'cubic'][r % 4],
                         nfine=64 if tier == "quick" else 80))
     return out
 
@@ -170,6 +170,8 @@ def run_interp(spec, res):
     rnd = rng.normal(size=n)
     hi = [a[-1] for a in ax]
     tagbase = ['x'.join(map(str, n))]
+    # the field's magnitude must not matter (wave-zone fields are tiny)
+    amp = float([1.0, 1e-9, 1e5, 1e-13][int(spec['seed']) % 4])
     for method in ['linear', 'nearest', 'cubic', 'slinear']:
         if method == 'cubic' and min(n) < 4:
             continue
@@ -177,15 +179,17 @@ def run_interp(spec, res):
         pts = (X[::2, 1::2, ::3], Y[::2, 1::2, ::3], Z[::2, 1::2, ::3])
         res['observations'] += 1
         try:
-            got = numerical.interpolate(rnd, tuple(ax), pts, method=method)
+            got = numerical.interpolate(amp * rnd, tuple(ax), pts, method=method)
         except Exception as e:
             common.add_violation(res, f"interpolate raises at nodes ({method})", {"err": repr(e)[:200]})
             continue
         tol = 1e-3 if method == 'cubic' else 1e-10   # scipy's spline solve is iterative
-        if got.shape != pts[0].shape or np.abs(got - rnd[::2, 1::2, ::3]).max() > tol:
-            common.add_violation(res, f"interpolate not exact at nodes ({method})", {})
+        if got.shape != pts[0].shape or np.abs(got / amp - rnd[::2, 1::2, ::3]).max() > tol:
+            common.add_violation(res, f"interpolate not exact at nodes ({method})",
+                                 {"field_magnitude": amp,
+                                  "err": float(np.abs(got / amp - rnd[::2, 1::2, ::3]).max())})
         else:
-            res['nontrivial'].append(['nodes', method] + tagbase)
+            res['nontrivial'].append(['nodes', method, amp] + tagbase)
     # targets that are not C-contiguous (transposed views, Fortran order)
     Tn = [rng.uniform(lo[i], hi[i], (5, 3)) for i in range(3)]
     Tn = [Tn[0].T, np.asfortranarray(Tn[1].T), Tn[2].T.copy()]
